@@ -56,5 +56,9 @@ VARIANTS = [
     M("point-scale-writes-x-before-y-product", "polygon.Point2D.scale",
       "new_x = self._x * xscale\n    new_y = self._y * yscale\n    self._x = new_x\n    self._y = new_y",
       "self._x = self._x * xscale\n    self._y = self._y * yscale", ["R11.4"]),
+    M("point-move-writes-x-before-y-sum", "polygon.Point2D.move",
+      "new_x = self._x + vector[0]\n    new_y = self._y + vector[1]\n    self._x = new_x\n    self._y = new_y",
+      "self._x += vector[0]\n    self._y += vector[1]", ["R11.4"]),
+    T("point-move-tuple-store", "polygon.Point2D.move", "self._x = new_x\n    self._y = new_y", "self._x, self._y = (new_x, new_y)"),
     T("point-scale-tuple-store", "polygon.Point2D.scale", "self._x = new_x\n    self._y = new_y", "self._x, self._y = (new_x, new_y)"),
 ]
